@@ -4,6 +4,16 @@ SIM_NOTE = ("trusted base: the behavioural nRF24L01+ simulator (vlib/sim, self-t
             "driver; chip assumptions (a)-(e) of DESIGN.md 2.6")
 
 CHECKS = [
+    {"property_id": "C06", "level": "fault_enumeration",
+     "text": "delivery patterns are enumerated exhaustively for a 2- and a 3-fragment message (every drop/once/twice word, every "
+             "arrival order, dequeue after every step or at the end) and for two senders with equal frame ids (every loss word x "
+             "every interleaving); Hypothesis generates larger patterns (1..3 senders, 2..7 fragments, duplicates, bounded "
+             "reordering, stray fragments, ordinary frames, dequeues) through three executors (fresh frame objects, one reused "
+             "frame object, over the simulated air into a node's update()); every frame handed to the application is compared "
+             "with the set of messages actually sent and with the number of complete in-order presentations",
+     "design_ref": "4/C06", "note": "oracle: history invariant computed from the reference fragmenter's output (vlib/ref/frag.py); "
+     "a sender never reuses a frame id for two different messages (outside the protocol, such cases are not judged)",
+     "technique": "fault-pattern enumeration + Hypothesis-generated delivery patterns with a history-invariant oracle"},
     {"property_id": "C11", "level": "exploration",
      "text": "Hypothesis-generated header field values / buffers compared with an independently written struct layout, and "
              "one real write() for every message length 0..144 (exhaustive over lengths, several contents/types/ids per length) "
